@@ -126,7 +126,24 @@ class PortOracle(UnrollMixin, Hooks):
             self.undecided.append(cond)
         return r
 
+    name_len = 5        # length of the name looked up (find_named*): decides len(name) tests
+
     def _decide(self, cond, st):
+        # "the description carries a name after the product string": class bit T
+        if isinstance(cond, Truthy):
+            f = field_of(cond.v)
+            if f is not None and f[1] == 1 and not f[2] and f[3] == OFFSET:
+                return 'T' in self.classes[f[0]]
+        if isinstance(cond, Cmp) and isinstance(cond.a, Sym) and isinstance(cond.b, Sym):
+            # comparisons on the length of the looked-up name
+            lens = [a for a in (cond.a - cond.b).all_atoms()
+                    if a[0] == 'f' and a[1] == 'LEN' and 'param:port_name' in repr(a)]
+            if lens and all(a in lens or a[0] != 'v' for a in (cond.a - cond.b).atoms()):
+                val = (cond.a - cond.b).subs({a: Sym.const(self.name_len) for a in lens})
+                if val.is_const():
+                    v = val.const_value()
+                    return {'<': v < 0, '<=': v <= 0, '>': v > 0, '>=': v >= 0, '==': v == 0,
+                            '!=': v != 0}[cond.op]
         if isinstance(cond, Pred) and cond.name == 'startswith' and len(cond.args) == 2:
             hay, needle = cond.args
             f = field_of(hay)
@@ -208,7 +225,10 @@ def class_lists(classes, max_n):
 
 
 # ---------------------------------------------------------------------------- D1 / D3
-FIRST_CLASSES = [frozenset(), frozenset('N'), frozenset('V'), frozenset('NV')]
+FIRST_CLASSES = [frozenset(), frozenset('N'), frozenset('V'), frozenset('NV'),
+                 # the same boards carrying a name after the product string (bit T): whether a
+                 # board is an EBB does not depend on its being named
+                 frozenset('NT'), frozenset('NVT')]
 
 
 def expected_first(combo):
@@ -263,7 +283,7 @@ def check_listing(ck, prog, fn, max_n=3):
         ports = [port(k) for k in range(len(combo))]
         hk = PortOracle(ports, combo)
         outs = run_fn(prog, fn, hk)
-        keep = [ports[k] for k, c in enumerate(combo) if c]
+        keep = [ports[k] for k, c in enumerate(combo) if c & {'N', 'V'}]
         want = Tup(tuple(keep), 'list') if keep else NONE
         got = {('raise' if o.kind == 'raise' else repr(o.value)) for o in outs}
         n += 1
@@ -300,9 +320,10 @@ def check_lookup(ck, prog, fn, legacy, max_n=2):
     classes = lookup_classes(legacy)
     active = {'P1', 'P2', 'P3', 'P4'} | ({'P5'} if legacy else set())
     pname = fn.params[0]
-    for combo in class_lists(classes, max_n):
+    for combo, nlen in [(c, n_) for c in class_lists(classes, max_n) for n_ in (5, 21)]:
         ports = [port(k) for k in range(len(combo))]
         hk = PortOracle(ports, combo)
+        hk.name_len = nlen          # a short name and one longer than any "nickname" limit
         outs = run_fn(prog, fn, hk, {pname: QUERY})
         want = NONE
         for k, c in enumerate(combo):
@@ -311,7 +332,7 @@ def check_lookup(ck, prog, fn, legacy, max_n=2):
                 break
         got = {('raise' if o.kind == 'raise' else repr(o.value)) for o in outs}
         n += 1
-        inst = '%s ports=%s' % (fn.qualname, describe(combo))
+        inst = '%s ports=%s name of %d characters' % (fn.qualname, describe(combo), nlen)
         if hk.problems:
             ck.ob('C19-D4-case-insensitive', inst, False,
                   '%s: %s' % (fn.qualname, '; '.join(hk.problems)), fn.loc(),
